@@ -6,6 +6,7 @@ contiguous / interleaved / string / timestamp / DAQmx, optional truncated final 
 executed on the real code, lazily and eagerly, and compared with NumPy indexing of the full array.
 """
 import io
+import struct
 
 import numpy as np
 
@@ -231,9 +232,32 @@ def run_large(item):
         hist = [G.seg([(F.A, ['FULL', 'Int32', n]), (F.B, ['FULL', 'Int16', 3])], chunks=1) for _ in range(4)]
     elif which == 'interleaved':
         hist = [G.seg([(F.A, ['FULL', 'Int32', n // 2]), (F.B, ['FULL', 'Int16', n // 2])], chunks=2, interleaved=True) for _ in range(4)]
+    elif which == 'huge-interleaved':
+        # one interleaved segment of 2.4 MB (300 chunks x 1024 rows) followed by a small one: beyond 1 MiB / 2^18 values
+        hist = [G.seg([(F.A, ['FULL', 'Int32', 1024]), (F.B, ['FULL', 'Int32', 1024])], chunks=300, interleaved=True),
+                G.seg([(F.A, ['FULL', 'Int32', 5]), (F.B, ['FULL', 'Int32', 5])], chunks=1, interleaved=True)]
+    elif which == 'huge-contiguous':
+        hist = [G.seg([(F.B, ['FULL', 'Int32', 1024]), (F.A, ['FULL', 'Int32', 1024])], chunks=300),
+                G.seg([(F.A, ['FULL', 'Int32', 5])], chunks=1)]
     else:
         hist = [G.seg([(F.A, ['FULL', 'Int32', 3500]), (F.B, ['FULL', 'Int16', 1])], chunks=5)] + [G.seg([], meta=False, chunks=5) for _ in range(3)]
+    # the pooled values repeat with a short period, which would make one chunk look like any other: number the values of A
+    count = 0
+    for sg in hist:
+        for o in sg['objects']:
+            if o['path'] == F.A and o['enc'][0] == 'FULL':
+                per_chunk, chunks = o['enc'][2], sg['chunks']
+                o['enc'] = ['FULL', 'Int32', per_chunk, [struct.pack('<i', count + j).hex() for j in range(per_chunk * chunks)]]
+                last_enc = (per_chunk, chunks)
+        if not sg.get('meta', True):
+            per_chunk, chunks = last_enc[0], sg['chunks']
+        count += per_chunk * chunks
+    if which == 'multichunk':
+        # metadata-less segments repeat the index, explicit values included: give every segment its own numbered block instead
+        hist = [G.seg([(F.A, ['FULL', 'Int32', 3500, [struct.pack('<i', si * 17500 + j).hex() for j in range(17500)]]),
+                       (F.B, ['FULL', 'Int16', 1])], chunks=5) for si in range(4)]
     data = G.encode(hist, seed=seed)[0]
+    huge = which.startswith('huge')
     res = {'counters': {'files': 1, 'ops': 0, 'nontrivial': 1, 'gap_files': 0, 'truncated_files': 0}, 'outcomes': {}, 'violations': [], 'samples': []}
     eager = H.TdmsFile.read(io.BytesIO(data))
     base = eager['g']['a'][:]
@@ -242,10 +266,12 @@ def run_large(item):
     bad = []
     try:
         for mode, ch in (('lazy', lazy['g']['a']), ('eager', eager['g']['a'])):
-            marks = sorted(set([2 ** k for k in range(8, 17)] + [n, 2 * n, 3 * n, L]))
-            for start in (None, 1, 16383, 16385, 40000, -5):
-                for stop in (None, 16384, 65537, L - 1, -16385):
-                    for step in (2, 3, 5, 7, 1000, 4096, 16384, 16385, -1, -2, -3, -7, -1000, -16385):
+            marks = sorted(set([2 ** k for k in range(8, 19)] + [n, 2 * n, 3 * n, L])) if huge else \
+                sorted(set([2 ** k for k in range(8, 17)] + [n, 2 * n, 3 * n, L]))
+            marks = [b for b in marks if b <= L]
+            for start in ((None, 131071, 262145, -5) if huge else (None, 1, 16383, 16385, 40000, -5)):
+                for stop in ((None, 262144, L - 1) if huge else (None, 16384, 65537, L - 1, -16385)):
+                    for step in ((1, 3, 1000, 65537, -1, -7) if huge else (2, 3, 5, 7, 1000, 4096, 16384, 16385, -1, -2, -3, -7, -1000, -16385)):
                         res['counters']['ops'] += 1
                         exp = base[start:stop:step]
                         r = H.guarded(ch.__getitem__, slice(start, stop, step))
@@ -316,7 +342,7 @@ def run(ctx):
     items = [(k, o, ctx.tier, ctx.seed, True) for k, o in fl]
     # largest files first for better load balance
     items.sort(key=lambda it: -sum((o[0] * o[1]) if isinstance(o, tuple) else 0 for o in it[1]))
-    m = merge(ctx.map(run_file, items, chunksize=1) + ctx.map(run_large, [(w, ctx.seed) for w in ('contiguous', 'interleaved', 'multichunk')]))
+    m = merge(ctx.map(run_file, items, chunksize=1) + ctx.map(run_large, [(w, ctx.seed) for w in ('contiguous', 'interleaved', 'multichunk', 'huge-interleaved', 'huge-contiguous')]))
     c = m['counters']
     vac = []
     if not c.get('gap_files'):
